@@ -5,7 +5,13 @@ import KyupyVerif.Proofs.WaveMemDemo
 
 Models (M): `Wave.captureWv` = `wave_capture_cpu` / `wave_capture_gpu` with `sd = 0`; `Wave.waveCounts` = the
 `(nrise, nfall)` pair `_wave_eval` returns; `Wave.accumulate` = the `abuf[a_loc, sim] += nrise*a_wr + nfall*a_wf`
-updates of `level_eval_cpu` / `wave_eval_gpu`. Tied to the code by correspondence (harness/c13.py).
+updates of `level_eval_cpu` / `wave_eval_gpu`. Tied to the code by correspondence (harness/c13.py); since the audit (finding 9) the
+accumulation itself is RUN by the driver (`accum`: `Wave.accumulate` on the zero row, fed with the model's per-op counts and the real
+accumulation-control columns 6..8 of `ops`, once per propagation) and compared with the real `abuf` — the former Python
+re-implementation of the sum is gone. `abuf_sum` / `abuf_order_independent` are statements about ANY contribution list; the statement
+"after `c_prop` accumulator `a` of lane `x` grew by Σ over the rows with `aLoc = a` of `aWr·nrise + aWf·nfall` of the waveform the row
+produced" (`activity_all_circuits`, over `WaveIO.cpuCProp` with `accAdd`) is NOT yet a theorem: it is this correspondence plus
+`counts_faithful(_mem)` + `abuf_sum`.
 
 **Memory level** (last section; memory model in the header of Props/C03.lean): `wave_capture` scans the region
 `c[c_loc : c_loc + c_len]` of an output slot up to the first cell `≥ TMAX` — that is `captureWv (rdWave c_loc c_len m)`.
